@@ -1,4 +1,4 @@
-"""Regenerate MANIFEST.json from the per-property registry below."""
+"""Regenerate MANIFEST.json from the per-property registry tools/checks.json."""
 import json
 from pathlib import Path
 
@@ -10,23 +10,7 @@ LEVEL_NOTE = ("Trusted: Lean 4.33 kernel with axioms propext/Classical.choice/Qu
               "approximate reals to 1e-9. Modelled rather than verified: everything under lean/QV/Model (hand models tied by "
               "correspondence on every run); verified against regenerated source: lean/QV/Gen (rebuilt from /repo on every run).")
 
-CHECKS = {
-    "C01": {
-        "text": "Proof: (a) per gate class, unitarity and equality with the documented matrix for ALL parameter values, decided by the kernel (`decide +kernel`) on tables re-traced from the source on every run; (b) theorems about the executable simulator model (fold in queue order, control semantics) for all n/placements/states; (c) exact Gaussian-integer correspondence of the model with the real apply_gate / execute_circuit / Circuit.unitary on exhaustive small layouts and random circuits.",
-        "technique": "Lean 4 kernel-checked table obligations regenerated by symbolic tracing + hand model with exact correspondence",
-        "design_ref": "§3 C01",
-    },
-    "C02": {
-        "text": "Proof: theorems over the executable simulator model, for all circuits/placements/controls and all states: density-matrix execution of a pure input is the projector on the state-vector result; linearity in rho (hence U rho U† for every mixture); left/right actions commute; trace preservation for unitary gate matrices. Tie: exact Gaussian-integer correspondence of the model with the real apply_gate_density_matrix (incl. the 4-block controlled update) on exhaustive small layouts and random circuits.",
-        "technique": "Lean 4 theorems on a hand model (induction over gate lists, sums over qubit assignments) + exact correspondence",
-        "design_ref": "§3 C02",
-    },
-    "C05": {
-        "text": "Proof: per gate class and for ALL parameter values, kernel-decided obligations re-traced from the source on every run: dagger = adjoint (bare and under controlled_by), controlled_by(1,2 controls) = controlled operator whichever class is returned, on_qubits = relabelling, and the same after a parameter update (current values). Circuit level: theorems for invert (circuit followed by its inverse is the identity given per-gate inverses), concatenation and relabelling by any injective map, all lengths. Numeric search on the real methods finds the failing inputs.",
-        "technique": "Lean 4 kernel-checked table obligations regenerated by symbolic tracing + theorems on the circuit-operation model",
-        "design_ref": "§3 C05",
-    },
-}
+CHECKS = json.loads((VERIF / "tools" / "checks.json").read_text())
 
 NOT_YET = {}
 
